@@ -385,7 +385,7 @@ fn sync_writer(req: &Value) -> R {
         _ => {
             pause_before_commit(req);
             let cw0 = wall_ms();
-            let sri = w.commit().map_err(|e| commit_err(&e, cache))?;
+            let sri = w.commit().map_err(|e| commit_err(&e, cache, req))?;
             Ok(json!({"sri":sri.to_string(),"written":total,"calls":calls,"commit_w0":cw0.to_string(),
                       "write_errors":write_errors}))
         }
@@ -394,10 +394,23 @@ fn sync_writer(req: &Value) -> R {
 
 /// A failed commit, described while the error value is still alive: whatever the error keeps alive (e.g. a temp
 /// file) is still there when the temp area is listed.
-pub fn commit_err(e: &cacache::Error, cache: &Path) -> Value {
+pub fn commit_err(e: &cacache::Error, cache: &Path, req: &Value) -> Value {
     let mut j = staged(err_json(e), "commit");
+    // only on request ("watch_tmp_on_error"): with other writers open in the same cache their temp files are there
+    if !req.get("watch_tmp_on_error").and_then(|x| x.as_bool()).unwrap_or(false) {
+        return j;
+    }
+    // background work of the consumed writer (a blocking task dropping its temp file) may take a moment: only what is
+    // still there after a second, with the error still alive, is reported
+    let mut left = stray_files(cache);
+    let mut polls = 0;
+    while !left.is_empty() && polls < 40 {
+        std::thread::sleep(std::time::Duration::from_millis(25));
+        left = stray_files(cache);
+        polls += 1;
+    }
     if let Some(o) = j.as_object_mut() {
-        o.insert("stray_while_error_alive".into(), json!(stray_files(cache)));
+        o.insert("stray_while_error_alive".into(), json!(left));
     }
     j
 }
@@ -465,7 +478,7 @@ fn sync_handle(req: &Value) -> R {
                 drop(w);
                 return Ok(json!({"dropped":true}));
             }
-            let sri = w.commit().map_err(|e| commit_err(&e, cache))?;
+            let sri = w.commit().map_err(|e| commit_err(&e, cache, req))?;
             Ok(json!({"sri":sri.to_string()}))
         }
     }
@@ -888,7 +901,12 @@ fn main() {
     asyncops::init_runtime();
     let stdout = std::io::stdout();
     if args.len() >= 3 && args[1] == "run" {
-        // script mode: execute every line of the script, responses to <out> or stdout
+        // script mode: execute every line of the script, responses to <out> or stdout; an optional 5th argument is
+        // the directory for large results (cargo-miri replays the environment of its BUILD step, so under Miri the
+        // environment variable cannot be trusted)
+        if args.len() >= 5 {
+            *OUT_DIR.lock().unwrap() = Some(PathBuf::from(&args[4]));
+        }
         let f = std::fs::File::open(&args[2]).expect("script");
         let mut out: Box<dyn Write> = if args.len() >= 4 {
             Box::new(std::io::BufWriter::new(std::fs::File::create(&args[3]).expect("out")))
